@@ -11,6 +11,14 @@ SCRIPTS = [
     "h = {\"a\": Count}; return h[\"a\"] > 0;", "return sort(Tags)[0] == \"a\";", "return between(Count, 1, 100) && (Name in [\"bob\", \"Alice\"]);",
 ]
 
+# scripts whose regular expressions are new to the process every time they are prepared (@U@ is replaced by
+# the harness with a string unique per workload, goroutine and round; the alternative it adds never matches)
+FRESH = [
+    "return Name ~= /o|zz@U@/;", "return match(Name, \"^b|^@U@\") || Ratio > 1;", "x = replace(Name, /[aeiou]|@U@/, \"_\"); return x;",
+    "switch (Name) { case /^A|@U@/i { return 1; } case \"bob\" { return 2; } default { return 3; } }", "return Name !~ /@U@/;",
+    "t = 0; foreach n in Tags { if (n ~= /^[a-c]$|@U@/) { t++; } } return t;",
+]
+
 class C11(Prop):
     id = "C11"
     compare_run = True
@@ -18,8 +26,8 @@ class C11(Prop):
     rule = ("the harness, built with the Go race detector, runs (a) N in {2,8,32} goroutines calling Run on ONE prepared evaluator with "
             "different objects: the multiset of (object, verdict) must equal the sequential run; (b) a counter script on a shared evaluator: "
             "after N x K runs the persistent variable equals N x K; (c) M goroutines each preparing and running their OWN evaluators with "
-            "scripts using fields, variables, regexps (~=, match, replace, switch cases) and built-ins: equal scripts must see equal "
-            "results; any race report or fatal error is a violation. non-trivial = workload with at least 2 goroutines")
+            "scripts using fields, variables, regexps (~=, match, replace, switch cases; also patterns never compiled before in the "
+            "process, so that compilation caches are written concurrently) and built-ins: equal scripts must see equal results; any race report or fatal error is a violation. non-trivial = workload with at least 2 goroutines")
 
     def cases(self, rng, tier):
         return []
@@ -35,8 +43,11 @@ class C11(Prop):
         objs = [enc_struct(gen.rand_object(rng)) for _ in range(6)]
         ns = [2, 8, 32] if tier == "thorough" else [2, 8]
         reps = 8 if tier == "thorough" else 1
+        # first of all, on a cold process: separate evaluators compiling patterns nobody has compiled yet
+        specs.append({"kind": "separate", "scripts": FRESH, "objs": objs, "goroutines": 24, "rounds": 6})
         for _ in range(reps):
             for n in ns:
+                specs.append({"kind": "separate", "scripts": FRESH, "objs": objs, "goroutines": max(n, len(FRESH) * 2), "rounds": 4})
                 for s in SCRIPTS:
                     specs.append({"kind": "shared", "script": s, "objs": objs, "goroutines": n, "rounds": 20})
                 specs.append({"kind": "counter", "script": "if (n) { n = n + 1; } else { n = 1; } return true;", "objs": objs, "goroutines": n, "rounds": 50})
